@@ -35,6 +35,8 @@ pub enum Tmo {
     Ms(u16),
     /// below one millisecond: non-zero, due at the next tick of tokio's millisecond timer
     Us(u16),
+    /// practically infinite (Duration::MAX): never due within a history
+    Huge,
 }
 
 impl Tmo {
@@ -44,6 +46,7 @@ impl Tmo {
             Tmo::Zero => Some(Duration::ZERO),
             Tmo::Ms(m) => Some(Duration::from_millis(m as u64)),
             Tmo::Us(u) => Some(Duration::from_micros(u.clamp(1, 999) as u64)),
+            Tmo::Huge => Some(Duration::MAX),
         }
     }
     fn ms(self) -> Option<u64> {
@@ -53,10 +56,11 @@ impl Tmo {
             Tmo::Ms(m) => Some(m as u64),
             // every clock movement is a whole number of milliseconds
             Tmo::Us(_) => Some(1),
+            Tmo::Huge => Some(1 << 40),
         }
     }
     fn nonzero(self) -> bool {
-        matches!(self, Tmo::Ms(m) if m > 0) || matches!(self, Tmo::Us(_))
+        matches!(self, Tmo::Ms(m) if m > 0) || matches!(self, Tmo::Us(_) | Tmo::Huge)
     }
 }
 
@@ -381,7 +385,7 @@ impl Model {
                     self.gets[g].phase = Phase::Waiting { deadline: None };
                     self.waiters.push_back(g);
                 }
-                Tmo::Ms(_) | Tmo::Us(_) => {
+                Tmo::Ms(_) | Tmo::Us(_) | Tmo::Huge => {
                     let m = t.wait.ms().unwrap_or(1);
                     self.gets[g].phase = Phase::Waiting {
                         deadline: Some(self.now + m),
@@ -1328,7 +1332,7 @@ async fn run_unmanaged_body(case: &Case, out: &mut Outcome, trace: &mut Vec<Stri
                             waiters.push_back((g, None));
                             None
                         }
-                        Tmo::Ms(_) | Tmo::Us(_) => {
+                        Tmo::Ms(_) | Tmo::Us(_) | Tmo::Huge => {
                             if !case.runtime {
                                 Some("NoRuntimeSpecified")
                             } else {
@@ -1427,6 +1431,7 @@ fn tmo() -> BoxedStrategy<Tmo> {
         2 => Just(Tmo::Zero),
         4 => prop_oneof![Just(10u16), Just(20), Just(30), Just(50)].prop_map(Tmo::Ms),
         1 => prop_oneof![Just(1u16), Just(500), Just(999)].prop_map(Tmo::Us),
+        1 => Just(Tmo::Huge),
     ]
     .boxed()
 }
@@ -1509,14 +1514,15 @@ pub fn decode(data: &[u8]) -> arbitrary::Result<Case> {
     use arbitrary::Unstructured;
     let mut u = Unstructured::new(data);
     fn tmo(u: &mut Unstructured) -> arbitrary::Result<Tmo> {
-        Ok(match u.int_in_range(0..=9u8)? {
+        Ok(match u.int_in_range(0..=10u8)? {
             0..=2 => Tmo::None,
             3 | 4 => Tmo::Zero,
             5 => Tmo::Ms(10),
             6 => Tmo::Ms(20),
             7 => Tmo::Ms(30),
             8 => Tmo::Ms(50),
-            _ => Tmo::Us(500),
+            9 => Tmo::Us(500),
+            _ => Tmo::Huge,
         })
     }
     fn t3(u: &mut Unstructured, runtime: bool) -> arbitrary::Result<T3> {
